@@ -167,6 +167,8 @@ def inplace_effects(E: Effects, funcs: List[Func]):
                 for st in walk_no_nested(f.node):
                     if getattr(st, "lineno", -1) == e.line and isinstance(st, ast.AugAssign) and isinstance(st.target, ast.Name):
                         bt = E.R.expr_type(st.target, f, env)
+                        if isinstance(st.value, ast.Call) and call_name(st.value) == "len":
+                            arrayish = False          # integer arithmetic on a counter / index
                         if bt and (bt[0] in ("set", "dict") or bt == ("ext", "str") or bt == ("ext", "int") or bt == ("ext", "float")):
                             arrayish = False
                         elif isinstance(st.op, (ast.BitOr, ast.BitAnd, ast.BitXor)) or (
